@@ -158,6 +158,8 @@ async fn row_count_demuxer(
     let minimum_parallel_files = exec_options.minimum_parallel_output_files.get();
     let mut part_idx = 0;
     let write_id = rand::distr::Alphanumeric.sample_string(&mut rand::rng(), 16);
+    #[cfg(datafusion_verif)]
+    let write_id = datafusion_common::verif::random_id("demux:write_id", write_id);
 
     let mut open_file_streams = Vec::with_capacity(minimum_parallel_files);
 
@@ -303,6 +305,8 @@ async fn hive_style_partitions_demuxer(
     keep_partition_by_columns: bool,
 ) -> Result<()> {
     let write_id = rand::distr::Alphanumeric.sample_string(&mut rand::rng(), 16);
+    #[cfg(datafusion_verif)]
+    let write_id = datafusion_common::verif::random_id("demux:write_id", write_id);
 
     let exec_options = &context.session_config().options().execution;
     let max_buffered_recordbatches =
